@@ -101,7 +101,7 @@ PARSE_PROPS = {
              "(no tree => Error; no keyword stored as identifier), lexical corner cases; validation must keep every parse-stage diagnostic",
              runs=[("parse", "P", ["corr_parse_shape"]), ("validate", "V", ["spec_C03_kept"])], py_oracle=o_C03,
              trusted_base=TB_PARSE, assumptions=ASSUME_PARSE, distribution=dist_parse),
-    "C04": P(["Model/LrDriver.v", "Proofs/Totality.v", "Proofs/RangesOk.v", "Proofs/StackProp.v", "Proofs/ArityOk.v", "Proofs/DiagSites.v", "Properties/C04.v"], [], gens.gen_C04,
+    "C04": P(["Model/LrDriver.v", "Proofs/Totality.v", "Proofs/RangesOk.v", "Proofs/RangesOrd.v", "Proofs/StackProp.v", "Proofs/ArityOk.v", "Proofs/DiagSites.v", "Properties/C04.v"], [], gens.gen_C04,
              "well-formed documents x 4 layouts (+ multi-byte / Unicode-whitespace injection) and malformed inputs; for every reported range: "
              "ordered, inside the file, on character boundaries, line/column = the lookup's answer, the lookup itself checked against the "
              "specification; every name range covers exactly the name as written, full ranges run from first to last token, children inside "
